@@ -25,7 +25,9 @@ RULE = ('evaluations = injected allocation failures: for every (C container '
         '_check / check() / walker with the previous contents or the '
         'completed change, and a follow-up workload on the same container '
         '(incl. growing the same leaf again, then destroying it) must '
-        'behave; every case also runs on the ASan+UBSan build; '
+        'behave; for stored containers a commit after the failed call '
+        'must store what the writer holds (fresh reader); every case also '
+        'runs on the ASan+UBSan build; '
         'distinct_nontrivial = distinct (family class, kind, operation, '
         'failing allocation index, allocations of the operation, outcome) '
         'tuples')
@@ -40,6 +42,7 @@ QUICK_FAMS = ['II', 'OO', 'LF', 'fs', 'QO', 'OI', 'UU', 'IO']
 def must_see(tier):
     m = {'failures-injected': 1500, 'outcome:MemoryError': 1000,
          'failures-injected:stored': 300, 'stored-operand': 20,
+         'commit-after-failure-read-back': 100,
          'outcome:unchanged': 300, 'sort-buffer-fallback': 1}
     for op in ('insert-empty', 'insert-grow', 'insert-split', 'update',
                'ior', 'isub', 'ixor', 'iand', 'ior-container',
@@ -566,6 +569,43 @@ def run_container(fam, kind, rng, rec, ci, arm, count):
                 continue
             oc = 'unchanged' if eq(got, before) else 'changed'
             rec.ev('outcome:' + oc)
+            # ---- what a commit after the failed call stores -----------------
+            # (the application may catch MemoryError and go on: whatever the
+            # failed call did change must have been announced)
+            if stored[0] and _CONN[0] is not None and out == 'MemoryError' \
+                    and not name.startswith(('setstate', 'fromString')):
+                conn_ = _CONN[0]
+                wq = walker.walk(c, is_mapping) if is_tree else None
+                inl = bool(wq is not None and wq.inline_nonroot)
+                del wq
+                if not inl:
+                    rerr = None
+                    try:
+                        conn_.commit()
+                        if not (is_tree and minidb.embedded_but_leaf_has_oid(
+                                conn_, c)):
+                            c2 = minidb.Connection(conn_.storage, 'c')
+                            c2.log_events = False
+                            rd = c2.get(c._p_oid)
+                            rgot = harness.contents(rd, is_mapping)
+                            if not eq(rgot, got):
+                                rerr = 'reader sees %s' % brief(rgot, 200)
+                            elif is_tree:
+                                e2, _w = hist.structural_checks(
+                                    rd, is_mapping, sizes=False)
+                                del _w
+                                if e2:
+                                    rerr = brief(e2[:3], 300)
+                            del rd, c2
+                            rec.ev('commit-after-failure-read-back')
+                    except Exception as e:
+                        rerr = '%s: %s' % (type(e).__name__, e)
+                    if rerr:
+                        rec.violation('stored-copy-wrong-after-allocation-'
+                                      'failure', detail=rerr,
+                                      writer=brief(got, 200), **d)
+                        del c
+                        continue
             rec.seen(fam.kc + fam.vc if fam.name != 'fs' else 'fs', kind,
                      name, n, N, oc)
             # ---- follow-up workload on the same container -------------------
